@@ -195,6 +195,10 @@ func (s *scripted) Read(p []byte) (int, error) {
 		ev.D = ""
 	}
 	s.log = append(s.log, ev)
+	if stepErr == "panic-string" {
+		// the same with a panic value that is not an error
+		panic("verif: the scripted source panicked inside Read (string value)")
+	}
 	if stepErr == "panic" {
 		// a caller-supplied source that panics inside Read (the caller recovers)
 		panic(sourcePanic{})
